@@ -114,7 +114,7 @@ Print Assumptions C11_orphan_not_adopted.
    again executes the body a second time.  Every theorem above is about gstep1, whose crash (g1_crash) touches no
    job process: they all need the repaired launcher.                                                          *)
 Theorem C11_group_signal_refuted : exists g gmid,
-  grun_group deps_one (firstn 18 mv_group_signal) gfresh0 = Some gmid /\
+  grun_group deps_one mv_group_signal_mid gfresh0 = Some gmid /\
   grun_group deps_one mv_group_signal gfresh0 = Some g /\
   forallb gmove_single mv_group_signal = true /\ forallb quiet_move mv_group_signal = true /\
   procs (jd gmid 0) 0 = PExit XFail /\ failed (jd gmid 0) = true /\ done (jd gmid 0) = false /\
@@ -145,3 +145,16 @@ Theorem C11_job_advances : forall st, InvL st -> aborts st = 0 -> (forall v, sch
   exists l st', good l = true /\ lstep l st = Some st' /\ mu st' < mu st.
 Proof. exact job_advances. Qed.
 Print Assumptions C11_job_advances.
+
+(* record of the pinned aio_start (one scheduler slot): killed between Popen and the pid write; the job runs as an
+   orphan and succeeds while the next run waits for the job lock; that run then starts a second process although
+   the marker exists - a launch that does nothing but truncate <name>.out / <name>.err of the only execution of
+   the body ("reaches the same final results" fails for the job's output).  With the repaired aio_start (marker
+   tested under the lock, LTest3) nothing is launched: C05_done_never_launched, and final_nonvacuous_chain2
+   (launches = 1).                                                                                           *)
+Theorem C11_noop_relaunch_refuted : exists st st',
+  run_labels_prefix tr_noop_relaunch fresh = Some st /\ Forall lbl_single tr_noop_relaunch /\
+  done st = true /\ body_runs st = 1 /\ launches st = 1 /\
+  lstep_prefix (LSpawn 0) st = Some st' /\ launches st' = 2.
+Proof. exact noop_relaunch_refuted. Qed.
+Print Assumptions C11_noop_relaunch_refuted.
